@@ -138,11 +138,15 @@ class _ReadSourceGenerator:
         prev_bits_type = None
         bits_remaining = 0
         bits_rollover = False
+        block_offset = None
 
         def flush() -> Iterator[str]:
             if current_block:
                 if self.align and current_block[0].offset is None:
                     yield f"stream.seek(-stream.tell() & ({current_block[0].alignment} - 1), {io.SEEK_CUR})"
+                elif current_block[0].offset is not None and current_block[0].offset != block_offset:
+                    # The stream is not where the block starts (padding or an untracked read came before it)
+                    yield f"stream.seek(o + {current_block[0].offset})"
 
                 yield from self._generate_packed(current_block)
                 current_block[:] = []
@@ -203,8 +207,11 @@ class _ReadSourceGenerator:
                     prev_was_bits = True
 
                 if bits_remaining == 0 or prev_bits_type != field_type:
+                    prev_bits_type = field_type
                     bits_remaining = (size * 8) - field.bits
                     bits_rollover = True
+                else:
+                    bits_remaining -= field.bits
 
                 yield from flush()
                 yield from align_to_field(field)
@@ -212,6 +219,8 @@ class _ReadSourceGenerator:
 
             # Everything else - basic and composite types (and arrays of them)
             else:
+                if not current_block:
+                    block_offset = current_offset
                 current_block.append(field)
 
             if current_offset is not None and size is not None and (not field.bits or bits_rollover):
